@@ -3,7 +3,8 @@
    i-th probe; the theorems quantify over EVERY clock, i.e. over expiry at any
    probe, before the start, or never. *)
 From Similar Require Import Model.Base Model.Utils Model.Myers Model.Lcs Model.Hooks Model.Capture
-  Spec.Script Spec.SnakeSpec Proofs.Lcs Proofs.Main Proofs.WorldInv Proofs.MyersSnake.
+  Spec.Script Spec.SnakeSpec Proofs.Lcs Proofs.Main Proofs.WorldInv Proofs.MyersSnake Proofs.NeverExpire.
+From Similar Require Import Model.TextDiff.
 
 Theorem c07_myers_valid_any_clock :
   forall (cmp : cmpf) (clk : nat -> bool) (os oe ns ne : nat) (w0 w1 : plain),
@@ -56,3 +57,60 @@ Example c07_instance :
   | _ => False
   end.
 Proof. vm_compute. split; reflexivity. Qed.
+
+(* ---------------------------------------------------------------------- *)
+(* "A deadline that never expires gives exactly the result of no deadline" *)
+(* ---------------------------------------------------------------------- *)
+(* generic: two hook/clock worlds that answer alike make every algorithm run
+   alike (equal Ok / Panic / OutOfFuel outcomes, related final states) *)
+Theorem c07_alg_parametric :
+  forall (W1 W2 : Type) (R : W1 -> W2 -> Prop) (wd1 : world W1) (wd2 : world W2)
+         (alg : algorithm) (dbg : bool) (orc : oracles) (os oe ns ne : nat) (w1 : W1) (w2 : W2),
+    WSim R wd1 wd2 -> R w1 w2 ->
+    rrel R (diff_deadline alg wd1 dbg orc os oe ns ne w1) (diff_deadline alg wd2 dbg orc os oe ns ne w2).
+Proof. exact @alg_parametric. Qed.
+Print Assumptions c07_alg_parametric.
+
+(* all three algorithms, any ranges (no premise), a clock that never answers
+   true: same calls, same counters except the number of probes *)
+Theorem c07_never_expire_raw :
+  forall (alg : algorithm) (clk : nat -> bool) (dbg : bool) (orc : oracles) (os oe ns ne : nat),
+    (forall i : nat, clk i = false) ->
+    exists k : nat,
+      raw_trace alg (Some clk) dbg orc os oe ns ne =
+      (do '(calls, c) <- raw_trace alg None dbg orc os oe ns ne; Ok (calls, set_probes k c)).
+Proof. exact never_expire_raw. Qed.
+Print Assumptions c07_never_expire_raw.
+
+Theorem c07_never_expire_capture :
+  forall (alg : algorithm) (clk : nat -> bool) (dbg repair : bool) (orc : oracles) (os oe ns ne : nat),
+    (forall i : nat, clk i = false) ->
+    exists k : nat,
+      capture_diff alg (Some clk) dbg repair orc os oe ns ne =
+      (do '(ops, c) <- capture_diff alg None dbg repair orc os oe ns ne; Ok (ops, set_probes k c)).
+Proof. exact never_expire_capture. Qed.
+Print Assumptions c07_never_expire_capture.
+
+Theorem c07_never_expire_textdiff :
+  forall (alg : algorithm) (clk : nat -> bool) (dbg repair : bool) (orc : oracles) (olen nlen : nat),
+    (forall i : nat, clk i = false) ->
+    exists k : nat,
+      textdiff_ops alg (Some clk) dbg repair orc olen nlen =
+      (do '(ops, c) <- textdiff_ops alg None dbg repair orc olen nlen; Ok (ops, set_probes k c)).
+Proof. exact never_expire_textdiff. Qed.
+Print Assumptions c07_never_expire_textdiff.
+
+(* a never-expiring run never sets the expired flag; no deadline = no probe *)
+Theorem c07_never_expire_ctr :
+  forall (alg : algorithm) (dl : deadline) (dbg : bool) (orc : oracles) (os oe ns ne : nat)
+         (calls : list call) (c : ctr),
+    dl_never dl -> raw_trace alg dl dbg orc os oe ns ne = Ok (calls, c) ->
+    expired c = false /\ post_cmps c = 0.
+Proof. exact never_expire_raw_ctr. Qed.
+Print Assumptions c07_never_expire_ctr.
+
+Theorem c07_none_no_probe :
+  forall (alg : algorithm) (dbg : bool) (orc : oracles) (os oe ns ne : nat) (calls : list call) (c : ctr),
+    raw_trace alg None dbg orc os oe ns ne = Ok (calls, c) -> probes c = 0.
+Proof. exact raw_none_no_probe. Qed.
+Print Assumptions c07_none_no_probe.
